@@ -67,7 +67,7 @@ impl Prop for C16 {
         }
     }
     fn required_probes(&self, _tier: Tier) -> Vec<&'static str> {
-        vec!["payload_pushdata1", "payload_pushdata2", "payload_pushdata4", "payload_76_80", "invalid_utf8_payload", "empty_payload", "multibyte_utf8_line", "sub_range_run"]
+        vec!["payload_pushdata1", "payload_pushdata2", "payload_pushdata4", "payload_76_80", "invalid_utf8_payload", "empty_payload", "multibyte_utf8_line", "sub_range_run", "lines_before_a_failing_block"]
     }
     fn explore(&self, item: u64, rng: &mut Rng, _tier: Tier, h: &mut Harness) -> Result<(), String> {
         let coin = COINS[(item % 8) as usize];
@@ -173,6 +173,23 @@ impl Prop for C16 {
             scn.runs.push(r2);
         }
         h.check(&mut scn)?;
+        // a block that cannot be read in the middle of the range: the lines of the blocks processed before
+        // it must have been printed (and nothing else), the run fails
+        if nb >= 3 && rng.chance(1, 4) {
+            let mut f = scn.clone();
+            f.family = "fault-midway".into();
+            let hh = rng.range(1, t);
+            let mut r = RunSpec::new("opreturn");
+            r.threads = 2;
+            r.disk_faults = vec![match rng.below(3) {
+                0 => DiskFault::PosPastEof { height: hh },
+                1 => DiskFault::Truncate { height: hh, off: rng.range(0, 60) },
+                _ => DiskFault::FlipBit { height: hh, off: 4, bit: 0 }, // harmless without --verify: control
+            }];
+            f.layouts = vec![single_file_layout(nb)];
+            f.runs = vec![r];
+            h.check(&mut f)?;
+        }
         Ok(())
     }
     fn nontrivial(&self, scn: &Scenario, outs: &[RunOutcome]) -> bool {
@@ -217,6 +234,35 @@ impl Prop for C16 {
             }
         }
         let mut v = Vec::new();
+        if scn.family == "fault-midway" {
+            let (r, o) = (&scn.runs[0], &outs[0]);
+            // with a single in-order file, a truncation/offset fault makes height hh (and everything after) unreadable
+            let failing = match r.disk_faults.first() {
+                Some(DiskFault::PosPastEof { height }) | Some(DiskFault::Truncate { height, .. }) => Some(*height),
+                _ => None,
+            };
+            match failing {
+                None => {
+                    if !o.exit.ok() {
+                        v.push(viol("C16/run-failed", format!("exit {:?}", o.exit)));
+                    } else {
+                        v.extend(compare_with_model("C16", m, r, o, &CmpOpts { addr: false, decimals: false }, st));
+                    }
+                }
+                Some(hh) => {
+                    st.probe("lines_before_a_failing_block");
+                    if o.exit.ok() {
+                        // judged by C10; here only the lines matter
+                        st.abstain("C16: unreadable block did not fail the run (C10's business)", 1);
+                    }
+                    // lines for heights 0..hh-1 must be there, in order, and nothing for later heights
+                    for x in compare_opreturn("C16/fault-midway", m, 0, hh - 1, o, st) {
+                        v.push(viol("C16/lines-lost-or-extra-before-failure", format!("block {} unreadable: {}", hh, x.detail)));
+                    }
+                }
+            }
+            return v;
+        }
         for (r, o) in scn.runs.iter().zip(outs.iter()) {
             if r.start.is_some() {
                 st.probe("sub_range_run");
